@@ -18,6 +18,10 @@ CHECKS = {
          "The real h2.Config.Proxy runs between two frame-level endpoints (which close their side on EOF/error like real peers) over simnet under the gosim scheduler: 7 terminating events (client closes, server closes, write failure toward either side, malformed frame from either side, proxy shutdown) x 4 session states (idle, mid-stream, DATA blocked on a zero window with trailers queued, output channel full because the server stopped reading) + bad preface + dial error; every schedule with <=1 (quick) / <=2 (thorough) deviations; oracle at the first quiescent point with zero virtual time elapsed: Proxy returned, its upstream connection is closed, no thread spawned by the session is alive.",
          "TLS replaced by the dial seam (no close_notify); a peer that stopped reading never closes.",
          "stateless schedule/fault enumeration of the implementation (gosim)", "gosim", "DESIGN.md §7 C10"),
+ "C12": ("model_checking",
+         "Program enumeration: every configuration tree with up to 3-5 (quick) / 4-6 (thorough) nodes over probe leaves, erroring leaves, state-changing leaves, fifo.Group (aggregating or not), priority.Group (priorities {0,1}), url/header/querystring/method/cookie filters with modifier and optional else, and 6 scope forms at every node, is rendered to JSON, parsed by the real parse.FromJSON and evaluated on requests and responses for every truth assignment of its filter conditions, against a reference interpreter written from the statement (trace order, error multiset, state); every node is also replaced by unknown names, unsupported/unimplemented scopes and syntactic corruptions (every prefix for small documents) and POSTed to a long-lived martianhttp.Modifier: 400, previous configuration fully in force, accepted ones replace completely.",
+         "Reduced alphabets for the larger sizes; well-formed JSON of the wrong type not examined.",
+         "bounded-exhaustive program (configuration tree) enumeration against a reference interpreter", "enum", "DESIGN.md §7 C12"),
  "C14": ("model_checking",
          "Exhaustive enumeration of header multisets (Connection lines with comma lists over 6 tokens, fixed hop-by-hop subsets, listed and unlisted end-to-end headers, 12 Via chains incl. this instance at every position/line, X-Forwarded-* variants, Content-Length / Transfer-Encoding combinations, protocol/address/URL environments) as a union of full sub-products, for requests and responses, run on the real httpspec stack with a test context and a stated subset through the real proxy over loopback; reference model from the statement (hop-by-hop removal, untouched other headers, exactly one appended Via, X-Forwarded-* semantics, loop => 400 and not sent upstream, framing errors flagged); failures are minimised factor by factor into signatures.",
          "Union of sub-products rather than the full product; Proxy-Connection treated as don't-care; requests net/http itself refuses are counted, not judged.",
